@@ -109,6 +109,35 @@ class GatedNet(FakeNet):
         self.auto: dict = {}             # (host, port) -> 'ok' | 'refuse'  (attempts that are not parked)
         self.writer_setup: dict = {}     # (host, port) -> callable(lib_writer) run when the pair is made
         self.accept_tasks: dict = {}     # remote addr -> task running ListeningConnection.accept
+        # per-object bookkeeping (additive; C10's per-object monitor): every open_connection call with the library
+        # object that made it, and every library-side socket with the object it belongs to
+        self.attempt_log: list = []      # {'key', 'task', 'owner', 'fut', 'writer'}  (owner: the connection object whose
+                                         #  connect() called open_connection, found on the call stack; None if unknown)
+        self.incoming_log: list = []     # {'key': remote addr, 'writer', 'owner': None until somebody claims it}
+
+    @staticmethod
+    def _calling_connection():
+        """The library connection object whose method (transitively) awaits the running open_connection call."""
+        import sys
+        fr = sys._getframe(2)
+        n = 0
+        while fr is not None and n < 64:
+            n += 1
+            obj = fr.f_locals.get('self')
+            if obj is not None and hasattr(obj, 'set_state') and hasattr(obj, '_writer') and hasattr(obj, 'hostname'):
+                return obj
+            fr = fr.f_back
+        return None
+
+    def writers_of(self, obj) -> list:
+        """library-side writers of every socket that was opened by / handed to `obj`"""
+        return ([a['writer'] for a in self.attempt_log if a['owner'] is obj and a['writer'] is not None]
+                + [a['writer'] for a in self.incoming_log if a['owner'] is obj])
+
+    def opening_by(self, obj) -> bool:
+        """an open_connection call of `obj` is parked and the task that made it is still running"""
+        return any(a['owner'] is obj and a['fut'] is not None and not a['fut'].done() and a['task'] is not None
+                   and not a['task'].done() for a in self.attempt_log)
 
     async def start_server(self, cb, host=None, port=None, **kw):
         if port in self.listeners or port in self.bind_fail_ports:
@@ -132,9 +161,13 @@ class GatedNet(FakeNet):
     async def open_connection(self, host=None, port=None, **kw):
         key = (host, port)
         self.attempts.append(key)
+        rec = {'key': key, 'task': asyncio.current_task(), 'owner': self._calling_connection(), 'fut': None,
+               'writer': None}
+        self.attempt_log.append(rec)
         how = self.auto.get(key)
         if how is None:
             fut = asyncio.get_running_loop().create_future()
+            rec['fut'] = fut
             self.pending[key] = fut
             try:
                 how = await fut
@@ -146,7 +179,9 @@ class GatedNet(FakeNet):
         if how != 'ok':
             raise ConnectionRefusedError(f'{host}:{port} refused (fake)')
         self._port += 1
-        return self._pair(key, (self.client_ip, self._port), key)
+        reader, writer = self._pair(key, (self.client_ip, self._port), key)
+        rec['writer'] = writer
+        return reader, writer
 
     def release_connect(self, key, how: str):
         fut = self.pending.get(key)
@@ -165,6 +200,7 @@ class GatedNet(FakeNet):
         if cb is None:
             raise ConnectionRefusedError(f'nothing listens on {port}')
         lib_reader, lib_writer = self._pair(remote_addr, ('0.0.0.0', port), remote_addr)
+        self.incoming_log.append({'key': remote_addr, 'writer': lib_writer, 'owner': None})
         self.accept_tasks[remote_addr] = asyncio.ensure_future(cb(lib_reader, lib_writer))
         return self.rem[remote_addr]
 
